@@ -297,6 +297,12 @@ class ParseMCNPCell:
                 msg = (f'expected {bounds.size()} universe specifications '
                        'after FILL keyword, found more')
                 raise ParseMCNPCellError(msg)
+            if kw_list and kw_list[-1] == '(':
+                # in MCNP, a transformation that follows an entry of a FILL
+                # array applies to that lattice element only
+                msg = ('transformations of individual lattice elements in '
+                       'a FILL array are not supported')
+                raise ParseMCNPCellError(msg)
             fillid_bounds = bounds
         else:
             fillid_u = int(float(first_arg))
